@@ -326,7 +326,7 @@ Proof.
     destruct (maxf_all_some nAp (fun a => dot u (fun s => rM s a) +
         gamma m * sumf nOp (fun o => Wopt (k + j) (step u a o))) (wp_nA W)) as (y & Hy).
     rewrite Hx, Hy. cbn [odflt].
-    eapply maxf_nonexp; [exact Hx|exact Hy|]. intros a Ha _.
+    eapply maxf_nonexp; [exact Hx|exact Hy|]. intros a Ha _. cbv beta.
     match goal with |- Rabs ?e <= _ =>
       replace e with (gamma m * (sumf nOp (fun o => Wopt k (step u a o)) -
                                  sumf nOp (fun o => Wopt (k + j) (step u a o)))) by lra end.
@@ -350,8 +350,552 @@ Proof.
   pose proof (Bj_bounds M (n - k) W HM0) as [B0 B1].
   pose proof (mass_nonneg u Hu) as Hm.
   assert (Hp : 0 <= gamma m ^ k) by (apply pow_le, (wf_gamma0 _ (wp_mdp W))).
-  rewrite (Rmult_comm (mass u)), Rmult_assoc.
+  replace ((mass u * gamma m ^ k) * (M / (1 - gamma m)))
+    with (gamma m ^ k * (mass u * (M / (1 - gamma m)))) by ring.
   apply Rmult_le_compat_l; [auto|]. apply Rmult_le_compat_l; auto.
 Qed.
 
+(* ------------------------------------------------------------------ *)
+(* 4. the infinite-horizon optimum W* and the bracket                  *)
+(* ------------------------------------------------------------------ *)
+Definition tailR (M : R) (k : nat) (u : nat -> R) : R := (mass u * gamma m ^ k) * (M / (1 - gamma m)).
+
+(* W is the infinite-horizon optimal value at u: the limit of Wopt k u, with explicit rate *)
+Definition is_Wstar (M : R) (u : nat -> R) (W : R) : Prop :=
+  forall k, Rabs (Wopt k u - W) <= tailR M k u.
+
+Lemma pow_small g c e : 0 <= g < 1 -> 0 <= c -> 0 < e -> exists N, forall n, (N <= n)%nat -> c * g ^ n < e.
+Proof.
+  intros [G0 G1] Hc He. destruct (Req_dec c 0) as [->|Hc0].
+  - exists 0%nat. intros n _. lra.
+  - assert (Hcp : 0 < c) by lra.
+    destruct (pow_lt_1_zero g) with (y := e / c) as (N & HN).
+    + rewrite Rabs_right; lra.
+    + apply Rdiv_lt_0_compat; lra.
+    + exists N. intros n Hn. specialize (HN n Hn). rewrite Rabs_right in HN by (apply Rle_ge, pow_le; lra).
+      apply Rmult_lt_compat_l with (r := c) in HN; [|lra].
+      replace (c * (e / c)) with e in HN by (field; lra). exact HN.
+Qed.
+
+Lemma le_of_pow x y g c (N : nat) :
+  0 <= g < 1 -> 0 <= c -> (forall n, (N <= n)%nat -> x <= y + c * g ^ n) -> x <= y.
+Proof.
+  intros Hg Hc H. destruct (Rle_dec x y) as [|Hn]; [auto|]. exfalso.
+  destruct (pow_small g c (x - y) Hg Hc) as (N' & HN'); [lra|].
+  specialize (H (Nat.max N N') (Nat.le_max_l _ _)). specialize (HN' (Nat.max N N') (Nat.le_max_r _ _)). lra.
+Qed.
+
+Theorem Wstar_exists M u :
+  wfp -> 0 <= M -> rbound M -> nonneg u -> exists W, is_Wstar M u W.
+Proof.
+  intros W HM0 HM Hu.
+  pose proof (wf_gamma0 _ (wp_mdp W)) as G0. pose proof (wp_g1 W) as G1.
+  pose proof (mass_nonneg u Hu) as Hm.
+  set (c := mass u * (M / (1 - gamma m))).
+  assert (Hc : 0 <= c).
+  { unfold c. apply Rmult_le_pos; [auto|]. apply Rmult_le_pos; [lra|]. left. apply Rinv_0_lt_compat. lra. }
+  assert (Ht : forall k, tailR M k u = c * gamma m ^ k) by (intros k; unfold tailR, c; ring).
+  assert (HC : Cauchy_crit (fun n => Wopt n u)).
+  { intros e He. destruct (pow_small (gamma m) c e (conj G0 G1) Hc He) as (N & HN).
+    exists N. intros n k Hn Hk. unfold R_dist.
+    destruct (Nat.le_ge_cases n k) as [Hnk|Hnk].
+    - eapply Rle_lt_trans; [apply (horizon_tail M n k u W HM0 HM Hu Hnk)|].
+      fold (tailR M n u). rewrite Ht. apply HN. lia.
+    - rewrite Rabs_minus_sym.
+      eapply Rle_lt_trans; [apply (horizon_tail M k n u W HM0 HM Hu Hnk)|].
+      fold (tailR M k u). rewrite Ht. apply HN. lia. }
+  destruct (R_complete _ HC) as (l & Hl). exists l. intros k.
+  apply le_epsilon. intros e He. destruct (Hl e He) as (N & HN).
+  specialize (HN (Nat.max N k) (Nat.le_max_l _ _)). unfold R_dist in HN.
+  pose proof (horizon_tail M k (Nat.max N k) u W HM0 HM Hu (Nat.le_max_r _ _)) as H1.
+  fold (tailR M k u) in H1.
+  replace (Wopt k u - l) with ((Wopt k u - Wopt (Nat.max N k) u) + (Wopt (Nat.max N k) u - l)) by lra.
+  eapply Rle_trans; [apply Rabs_triang|]. lra.
+Qed.
+
+Lemma tailR_nonneg M k u : wfp -> 0 <= M -> nonneg u -> 0 <= tailR M k u.
+Proof.
+  intros W HM0 Hu. unfold tailR. apply Rmult_le_pos.
+  - apply Rmult_le_pos; [apply mass_nonneg; auto|apply pow_le, (wf_gamma0 _ (wp_mdp W))].
+  - apply Rmult_le_pos; [lra|]. left. apply Rinv_0_lt_compat. pose proof (wp_g1 W). lra.
+Qed.
+
+(* PBVI: alpha vectors that went through j sweeps are at most W* + tail(j) *)
+Theorem pbvi_le_Wstar M j al u Ws :
+  wfp -> gen j al -> nonneg u -> is_Wstar M u Ws -> dot u al <= Ws + tailR M j u.
+Proof.
+  intros W G Hu HW. pose proof (pbvi_lower j al (wfp_wf0 W) G u Hu) as H1.
+  specialize (HW j). apply Rabs_le_inv' in HW. lra.
+Qed.
+
+(* ... and, for the finite-depth oracle the harness evaluates: *)
+Theorem pbvi_bracket M j n al u :
+  wfp -> 0 <= M -> rbound M -> gen j al -> nonneg u -> (j <= n)%nat ->
+  dot u al <= Wopt n u + tailR M j u.
+Proof.
+  intros W HM0 HM G Hu Hjn. pose proof (pbvi_lower j al (wfp_wf0 W) G u Hu) as H1.
+  pose proof (horizon_tail M j n u W HM0 HM Hu Hjn) as H2. fold (tailR M j u) in H2.
+  apply Rabs_le_inv' in H2. lra.
+Qed.
+
+(* optimal values of the underlying (masked) MDP: fixed point of the optimality operator *)
+Definition fixp (Vs : nat -> R) : Prop :=
+  forall s, (s < nSp)%nat -> maxf nAp (fun _ => true) (Qval m Vs s) = Some (Vs s).
+
+Lemma Vk_conv Vs D k :
+  wfp -> fixp Vs -> 0 <= D -> (forall s, (s < nSp)%nat -> Rabs (Vs s) <= D) ->
+  forall s, (s < nSp)%nat -> Rabs (Vk p k s - Vs s) <= gamma m ^ k * D.
+Proof.
+  intros W Hf HD0 HD. pose proof (wf_gamma0 _ (wp_mdp W)) as G0. induction k; intros s Hs.
+  - cbn [Vk pow]. numR. rewrite Rminus_0_l, Rabs_Ropp, Rmult_1_l. auto.
+  - eapply (maxf_nonexp nAp (fun _ => true) (Qval m (Vk p k) s) (Qval m Vs s)).
+    + apply Vk_S; auto.
+    + apply Hf; auto.
+    + intros a Ha _. cbn [pow]. rewrite Rmult_assoc.
+      apply (Qval_diff m (Vk p k) Vs s a (gamma m ^ k * D) (wp_mdp W) Hs Ha IHk).
+      apply Rmult_le_pos; [apply pow_le; auto|auto].
+Qed.
+
+Theorem qmdp_upper_star Vs D k u :
+  wfp -> fixp Vs -> 0 <= D -> (forall s, (s < nSp)%nat -> Rabs (Vs s) <= D) -> nonneg u ->
+  Wopt (S k) u <= odflt 0 (qmdp_value p (Qval m Vs) u) + (mass u * D) * gamma m ^ (S k).
+Proof.
+  intros W Hf HD0 HD Hu. pose proof (wf_gamma0 _ (wp_mdp W)) as G0.
+  eapply Rle_trans; [apply qmdp_upper; auto|].
+  unfold qmdp_value, qmdp_action_value. numR.
+  destruct (maxf_all_some nAp (fun a => sumf nSp (fun s => Qval m (Vk p k) s a * u s)) (wp_nA W)) as (x & Hx).
+  destruct (maxf_all_some nAp (fun a => sumf nSp (fun s => Qval m Vs s a * u s)) (wp_nA W)) as (y & Hy).
+  rewrite Hx, Hy. cbn [odflt].
+  assert (H : Rabs (x - y) <= (mass u * D) * gamma m ^ (S k)).
+  { eapply maxf_nonexp; [exact Hx|exact Hy|]. intros a Ha _. cbv beta.
+    rewrite <- sumf_minus. eapply Rle_trans; [apply sumf_abs|].
+    replace ((mass u * D) * gamma m ^ S k) with (sumf nSp (fun s => u s * (gamma m * (gamma m ^ k * D)))).
+    2:{ rewrite sumf_scal_r. unfold mass. cbn [pow]. ring. }
+    apply sumf_le. intros s Hs.
+    replace (Qval m (Vk p k) s a * u s - Qval m Vs s a * u s)
+      with (u s * (Qval m (Vk p k) s a - Qval m Vs s a)) by ring.
+    rewrite Rabs_mult, (Rabs_right (u s)) by (apply Rle_ge, Hu; auto).
+    apply Rmult_le_compat_l; [apply Hu; auto|].
+    apply (Qval_diff m (Vk p k) Vs s a (gamma m ^ k * D) (wp_mdp W) Hs Ha).
+    - intros ns Hns. apply Vk_conv; auto.
+    - apply Rmult_le_pos; [apply pow_le; auto|auto]. }
+  apply Rabs_le_inv' in H. lra.
+Qed.
+
+(* QMDP with the optimal Q table never under-estimates W* *)
+Theorem Wstar_le_qmdp M Vs u Ws :
+  wfp -> 0 <= M -> fixp Vs -> nonneg u -> is_Wstar M u Ws ->
+  Ws <= odflt 0 (qmdp_value p (Qval m Vs) u).
+Proof.
+  intros W HM0 Hf Hu HW.
+  pose proof (wf_gamma0 _ (wp_mdp W)) as G0. pose proof (wp_g1 W) as G1.
+  destruct (finite_sup nSp Vs) as (D & HD0 & HD & _).
+  pose proof (mass_nonneg u Hu) as Hm.
+  assert (HMg : 0 <= M / (1 - gamma m)).
+  { apply Rmult_le_pos; [lra|]. left. apply Rinv_0_lt_compat. lra. }
+  apply (le_of_pow _ _ (gamma m) (mass u * D + mass u * (M / (1 - gamma m))) 1%nat); [lra| |].
+  { apply Rplus_le_le_0_compat; apply Rmult_le_pos; auto. }
+  intros n Hn. destruct n as [|n]; [lia|].
+  pose proof (qmdp_upper_star Vs D n u W Hf HD0 HD Hu) as H1.
+  pose proof (HW (S n)) as H2. apply Rabs_le_inv' in H2. unfold tailR in H2.
+  replace ((mass u * D + mass u * (M / (1 - gamma m))) * gamma m ^ S n)
+    with ((mass u * D) * gamma m ^ S n + (mass u * gamma m ^ S n) * (M / (1 - gamma m))) by ring.
+  lra.
+Qed.
+
+(* finite-depth form evaluated by the harness: Wopt k - tail k <= QMDP value *)
+Theorem qmdp_bracket M Vs k u :
+  wfp -> 0 <= M -> rbound M -> fixp Vs -> nonneg u ->
+  Wopt k u - tailR M k u <= odflt 0 (qmdp_value p (Qval m Vs) u).
+Proof.
+  intros W HM0 HM Hf Hu. destruct (Wstar_exists M u W HM0 HM Hu) as (Ws & HW).
+  pose proof (Wstar_le_qmdp M Vs u Ws W HM0 Hf Hu HW) as H1.
+  specialize (HW k). apply Rabs_le_inv' in HW. lra.
+Qed.
+
+(* so PBVI never exceeds QMDP by more than the slack of the sweeps it ran *)
+Corollary pbvi_le_qmdp_star M j al Vs u :
+  wfp -> 0 <= M -> rbound M -> gen j al -> fixp Vs -> nonneg u ->
+  dot u al <= odflt 0 (qmdp_value p (Qval m Vs) u) + tailR M j u.
+Proof.
+  intros W HM0 HM G Hf Hu. destruct (Wstar_exists M u W HM0 HM Hu) as (Ws & HW).
+  pose proof (pbvi_le_Wstar M j al u Ws W G Hu HW).
+  pose proof (Wstar_le_qmdp M Vs u Ws W HM0 Hf Hu HW). lra.
+Qed.
+
+(* ------------------------------------------------------------------ *)
+(* 5. the mirror of point_based_value_iteration only produces gen-vectors *)
+(* ------------------------------------------------------------------ *)
+Lemma argmaxf_some n (f : nat -> R) : (0 < n)%nat -> exists i v, argmaxf n f = Some (i, v) /\ (i < n)%nat.
+Proof.
+  induction n; intros Hn; [lia|]. cbn [argmaxf]. destruct n.
+  - cbn [argmaxf]. exists 0%nat, (f 0%nat). split; [reflexivity|lia].
+  - destruct IHn as (i & v & E & Hi); [lia|]. rewrite E.
+    destruct (nltb v (f (S n))); [exists (S n), (f (S n))|exists i, v]; split; auto; lia.
+Qed.
+
+Lemma pick_in amb (cands : list (list R)) u :
+  cands <> [] -> In (fst (pick p amb cands u)) cands.
+Proof.
+  intros Hne. unfold pick.
+  destruct (argmaxf_some (length cands)
+      (fun i => nth i (map (fun c => dot u (untab c)) cands) n0)) as (i & v & E & Hi).
+  { destruct cands; [congruence|simpl; lia]. }
+  rewrite E. cbn [fst]. apply nth_In. exact Hi.
+Qed.
+
+Definition genl (j : nat) (G : list (list R)) : Prop := Forall (fun al => gen j (untab al)) G.
+
+Lemma point_backup_gen amb j G b :
+  (0 < nAp)%nat -> genl j G -> G <> [] -> gen (S j) (untab (fst (point_backup p tO rM amb G b))).
+Proof.
+  intros HnA HG Hne. unfold point_backup. cbn [fst].
+  set (per_a := map _ (seq 0 nAp)).
+  assert (Hin : In (fst (pick p amb (map fst per_a) (untab b))) (map fst per_a)).
+  { apply pick_in. unfold per_a. destruct nAp; [lia|]. rewrite <- cons_seq. discriminate. }
+  apply in_map_iff in Hin as (x & Hx & Hxin). unfold per_a in Hxin.
+  apply in_map_iff in Hxin as (a & Ha & Hain). apply in_seq in Hain.
+  rewrite <- Hx, <- Ha. cbn [fst].
+  set (chs := map (fun o => pick p amb G (step (untab b) a o)) (seq 0 nOp)).
+  apply (genS j a (fun o => untab (fst (nth o chs (zerov p, false))))); [lia| |].
+  - intros o Ho. unfold chs.
+    rewrite (nth_indep _ _ (pick p amb G (step (untab b) a 0%nat))) by (rewrite map_length, seq_length; auto).
+    rewrite (map_nth (fun o => pick p amb G (step (untab b) a o))), seq_nth by auto.
+    unfold genl in HG. rewrite Forall_forall in HG. apply HG. apply pick_in; auto.
+  - intros s Hs. unfold back_vec. rewrite untab_tab by auto. reflexivity.
+Qed.
+
+Lemma sweep_gen amb j B G :
+  (0 < nAp)%nat -> genl j G -> length G = length B ->
+  genl (S j) (fst (sweep p tO rM amb B G)) /\ length (fst (sweep p tO rM amb B G)) = length B.
+Proof.
+  intros HnA HG HL. unfold sweep. cbn [fst]. split; [|now rewrite !map_length].
+  unfold genl. rewrite map_map. apply Forall_forall. intros al Hal.
+  apply in_map_iff in Hal as (b & <- & Hb). apply point_backup_gen; auto.
+  intros ->. destruct B; [inversion Hb|discriminate].
+Qed.
+
+Lemma pbvi_loop_gen amb eps B fuel : (0 < nAp)%nat ->
+  forall j G fl, genl j G -> length G = length B ->
+  let r := pbvi_loop p tO rM fuel j amb eps B G fl in genl (snd (fst r)) (fst (fst r)).
+Proof.
+  intros HnA. induction fuel; intros j G fl HG HL; cbn [pbvi_loop]; [exact HG|].
+  destruct (nltb _ eps); [exact HG|].
+  destruct (sweep_gen amb j B G HnA HG HL) as [H1 H2]. apply IHfuel; auto.
+Qed.
+
+(* every alpha vector the mirror returns, for any belief list, thresholds and sweep cap, is a
+   gen-vector of the reported sweep count; hence pbvi_lower / pbvi_le_Wstar apply to it *)
+Theorem pbvi_run_gen horizon amb eps B :
+  (0 < nAp)%nat ->
+  let r := pbvi_run p tO rM horizon amb eps B in genl (snd (fst r)) (fst (fst r)).
+Proof.
+  intros HnA. unfold pbvi_run. apply pbvi_loop_gen; auto.
+  - unfold genl. apply Forall_forall. intros al Hal. apply in_map_iff in Hal as (b & <- & _).
+    apply gen0. intros s Hs. unfold zerov. now rewrite untab_tab.
+  - now rewrite map_length.
+Qed.
+
+(* alpha_value of a list of gen-vectors *)
+Lemma alpha_value_le j G u x bound :
+  genl j G -> alpha_value p G u = Some x ->
+  (forall al, gen j al -> dot u al <= bound) -> x <= bound.
+Proof.
+  intros HG Hx Hb. unfold alpha_value in Hx. eapply maxf_le_bound; [exact Hx|].
+  intros i Hi _. apply Hb. unfold genl in HG. rewrite Forall_forall in HG. apply HG.
+  apply nth_In. exact Hi.
+Qed.
+
 End Theory.
+
+(* ------------------------------------------------------------------ *)
+(* 6. action_dist: uniform over exactly the maximisers                 *)
+(* ------------------------------------------------------------------ *)
+Theorem greedy_check_sound ptol n (av d : nat -> R) :
+  greedy_check ptol n av d = true ->
+  exists mx, maxf n (fun _ => true) av = Some mx /\
+    (forall a, (a < n)%nat -> av a <= mx) /\ (exists a, (a < n)%nat /\ av a = mx) /\
+    forall a, (a < n)%nat ->
+      (av a = mx -> Rabs (d a * INR (countb n (fun a' => neqb (av a') mx)) - 1) <= ptol) /\
+      (av a <> mx -> d a = 0).
+Proof.
+  unfold greedy_check. destruct (maxf n (fun _ => true) av) as [mx|] eqn:E; [|discriminate].
+  intros H. exists mx. split; [reflexivity|]. split; [|split].
+  - intros a Ha. eapply maxf_ge; eauto.
+  - destruct (maxf_attained _ _ _ _ E) as (a & Ha & _ & Hv). eauto.
+  - rewrite forallbn_spec in H. intros a Ha. specialize (H a Ha).
+    destruct (neqb (av a) mx) eqn:Eq.
+    + apply neqb_Req' in Eq. split; [|congruence]. intros _.
+      apply ncloseb_R in H. now rewrite nofnat_R in H.
+    + split.
+      * intros Hv. apply neqb_Req' in Hv. congruence.
+      * intros _. now apply neqb_Req'.
+Qed.
+
+(* QMDP's action value is the belief-weighted action value of the table it was given *)
+Theorem qmdp_action_value_def (p : pomdp R) Qt u a :
+  qmdp_action_value p Qt u a = sumf (nS (base p)) (fun s => u s * Qt s a).
+Proof. unfold qmdp_action_value. apply sumf_ext. intros s _. numR. lra. Qed.
+
+(* ------------------------------------------------------------------ *)
+(* 7. boolean hypotheses / tabulated tables discharge the Prop ones    *)
+(* ------------------------------------------------------------------ *)
+Section Bool.
+Variable p : pomdp R.
+Notation m := (base p).
+
+Lemma unable_disc' s : gamma m < 1 -> unable_to_reach m s = false.
+Proof.
+  intros G. unfold unable_to_reach.
+  assert (E : @nltb R NumR (gamma m) n1 = true) by (apply nltb_R; numR; exact G).
+  now rewrite E.
+Qed.
+
+Lemma tO_tab_eq a o s ns :
+  (a < nA m)%nat -> (o < nO p)%nat -> (s < nS m)%nat -> (ns < nS m)%nat ->
+  tO_tab p a o s ns = tO_def p a o s ns.
+Proof.
+  intros Ha Ho Hs Hns. unfold tO_tab, untab2, tab2.
+  rewrite (nth_indep _ [] (map (fun o => map (fun i => tab (nS m) (fun ns => tO_def p 0 o i ns)) (seq 0 (nS m))) (seq 0 (nO p))))
+    by (rewrite map_length, seq_length; auto).
+  rewrite (map_nth (fun a => map (fun o => map (fun i => tab (nS m) (fun ns => tO_def p a o i ns)) (seq 0 (nS m))) (seq 0 (nO p)))),
+    seq_nth by auto.
+  rewrite (nth_indep _ [] (map (fun i => tab (nS m) (fun ns => tO_def p (0 + a) 0 i ns)) (seq 0 (nS m))))
+    by (rewrite map_length, seq_length; auto).
+  rewrite (map_nth (fun o => map (fun i => tab (nS m) (fun ns => tO_def p (0 + a) o i ns)) (seq 0 (nS m)))),
+    seq_nth by auto.
+  rewrite (nth_indep _ [] (tab (nS m) (fun ns => tO_def p (0 + a) (0 + o) 0 ns)))
+    by (rewrite map_length, seq_length; auto).
+  rewrite (map_nth (fun i => tab (nS m) (fun ns => tO_def p (0 + a) (0 + o) i ns))), seq_nth by auto.
+  now rewrite untab_tab.
+Qed.
+
+Lemma rM_tab_eq s a : (s < nS m)%nat -> (a < nA m)%nat -> rM_tab p s a = rM_def p s a.
+Proof.
+  intros Hs Ha. unfold rM_tab, untab2, tab2.
+  rewrite (nth_indep _ [] (tab (nA m) (rM_def p 0))) by (rewrite map_length, seq_length; auto).
+  rewrite (map_nth (fun i => tab (nA m) (rM_def p i))), seq_nth by auto.
+  now rewrite untab_tab.
+Qed.
+
+Lemma wfpomdpb_wfp_gen tO rM :
+  wfpomdpb p = true ->
+  (forall a o s ns, (a < nA m)%nat -> (o < nO p)%nat -> (s < nS m)%nat -> (ns < nS m)%nat ->
+     tO a o s ns = tO_def p a o s ns) ->
+  (forall s a, (s < nS m)%nat -> (a < nA m)%nat -> rM s a = rM_def p s a) ->
+  wfp p tO rM.
+Proof.
+  unfold wfpomdpb. rewrite !andb_true_iff. intros [[[[G0 G1] HnA] HP] HO] HtO HrM.
+  apply nleb_Rle' in G0. apply nltb_R in G1. numR.
+  apply negb_true_iff, Nat.eqb_neq in HnA.
+  rewrite forallbn_spec in HP. rewrite forallbn_spec in HO.
+  assert (HPs : forall s a, (s < nS m)%nat -> (a < nA m)%nat ->
+            avail m s a = true /\ (forall ns, (ns < nS m)%nat -> 0 <= P m s a ns) /\
+            sumf (nS m) (P m s a) = 1).
+  { intros s a Hs Ha. specialize (HP s Hs). rewrite forallbn_spec in HP. specialize (HP a Ha).
+    rewrite !andb_true_iff in HP. destruct HP as [[H1 H2] H3]. split; [auto|]. split.
+    - rewrite forallbn_spec in H2. intros ns Hns. apply nleb_Rle'. auto.
+    - now apply neqb_Req' in H3. }
+  assert (HOs : forall a ns, (a < nA m)%nat -> (ns < nS m)%nat ->
+            (forall o, (o < nO p)%nat -> 0 <= Ob p a ns o) /\ sumf (nO p) (Ob p a ns) = 1).
+  { intros a ns Ha Hns. specialize (HO a Ha). rewrite forallbn_spec in HO. specialize (HO ns Hns).
+    rewrite andb_true_iff in HO. destruct HO as [H1 H2]. split.
+    - rewrite forallbn_spec in H1. intros o Ho. apply nleb_Rle'. auto.
+    - now apply neqb_Req' in H2. }
+  constructor; auto; try lia.
+  - constructor; try lra.
+    + intros s a ns Hs Ha Hns. unfold Pm. destruct (masked m s); [numR; lra|].
+      apply (HPs s a Hs Ha); auto.
+    + intros s a Hs Ha. unfold Pm. destruct (masked m s).
+      * rewrite sumf_0; [lra|auto].
+      * change (sumf (nS m) (P m s a) <= 1). destruct (HPs s a Hs Ha) as (_ & _ & ->). lra.
+    + intros s Hs. exists 0%nat. split; [lia|]. apply (HPs s 0%nat Hs). lia.
+  - intros a ns o Ha Hns Ho. apply (HOs a ns Ha Hns); auto.
+  - intros a ns Ha Hns. apply (HOs a ns Ha Hns).
+Qed.
+
+Lemma wfpomdpb_wfp_def : wfpomdpb p = true -> wfp p (tO_def p) (rM_def p).
+Proof. intros H. apply wfpomdpb_wfp_gen; auto. Qed.
+Lemma wfpomdpb_wfp_tab : wfpomdpb p = true -> wfp p (tO_tab p) (rM_tab p).
+Proof. intros H. apply wfpomdpb_wfp_gen; auto using tO_tab_eq, rM_tab_eq. Qed.
+
+Lemma nonnegb_nonneg u : nonnegb p u = true -> nonneg p u.
+Proof. unfold nonnegb. rewrite forallbn_spec. intros H s Hs. apply nleb_Rle'. auto. Qed.
+
+Lemma rmaxabs_bound rM : (0 < nA m)%nat -> 0 <= rmaxabs p rM /\ rbound p rM (rmaxabs p rM).
+Proof.
+  intros HnA. unfold rmaxabs.
+  set (f := fun s => odflt n0 (maxf (nA m) (fun _ => true) (fun a => nabs (rM s a)))).
+  assert (Hf : forall s a, (a < nA m)%nat -> Rabs (rM s a) <= f s).
+  { intros s a Ha. unfold f.
+    destruct (maxf_all_some (nA m) (fun a => nabs (rM s a)) HnA) as (x & Hx). rewrite Hx. cbn [odflt].
+    rewrite <- nabs_R. apply (maxf_ge _ _ _ _ a Hx Ha eq_refl). }
+  destruct (Nat.eq_dec (nS m) 0) as [E|E].
+  - rewrite E. cbn [maxf odflt]. numR. split; [lra|]. intros s a Hs. lia.
+  - destruct (maxf_all_some (nS m) f) as (x & Hx); [lia|]. rewrite Hx. cbn [odflt].
+    assert (Hb : forall s a, (s < nS m)%nat -> (a < nA m)%nat -> Rabs (rM s a) <= x).
+    { intros s a Hs Ha. eapply Rle_trans; [apply Hf; auto|]. apply (maxf_ge _ _ _ _ s Hx Hs eq_refl). }
+    split; [|exact Hb].
+    eapply Rle_trans; [apply Rabs_pos|apply (Hb 0%nat 0%nat); lia].
+Qed.
+
+Lemma npow_R x k : @npow R NumR x k = x ^ k.
+Proof. induction k; cbn [npow pow]; numR; [reflexivity|now rewrite IHk]. Qed.
+
+Lemma norm1_mass u : nonneg p u -> norm1 p u = mass p u.
+Proof.
+  intros Hu. unfold norm1, mass. apply sumf_ext. intros s Hs. rewrite nabs_R, Rabs_right; auto.
+  apply Rle_ge, Hu; auto.
+Qed.
+
+Lemma tail_tailR rM k u :
+  gamma m < 1 -> nonneg p u -> tail p rM k u = tailR p (rmaxabs p rM) k u.
+Proof.
+  intros G Hu. unfold tail, tailR. numR. rewrite npow_R, norm1_mass by auto.
+  rewrite Rdivg_nz by lra. reflexivity.
+Qed.
+
+Lemma chk_qtable_fixp qtol Vs Qt :
+  chk_qtable p qtol Vs Qt = true ->
+  fixp p (untab Vs) /\
+  forall s a, (s < nS m)%nat -> (a < nA m)%nat -> Rabs (Qt s a - Qval m (untab Vs) s a) <= qtol.
+Proof.
+  unfold chk_qtable. rewrite forallbn_spec. intros H. split.
+  - intros s Hs. specialize (H s Hs). apply andb_true_iff in H as [H _].
+    destruct (maxf _ _ _) as [b|]; [|discriminate]. apply neqb_Req' in H. now rewrite H.
+  - intros s a Hs Ha. specialize (H s Hs). apply andb_true_iff in H as [_ H].
+    rewrite forallbn_spec in H. specialize (H a Ha). now apply ncloseb_R in H.
+Qed.
+
+End Bool.
+
+(* ------------------------------------------------------------------ *)
+(* 8. every observation reveals the state: QMDP is exact               *)
+(* ------------------------------------------------------------------ *)
+Lemma maxf_char n (f : nat -> R) y :
+  (forall a, (a < n)%nat -> f a <= y) -> (exists a, (a < n)%nat /\ f a = y) ->
+  maxf n (fun _ => true) f = Some y.
+Proof.
+  intros Hle (a & Ha & Hy). destruct (maxf_all_some n f) as (x & Hx); [lia|]. rewrite Hx. f_equal.
+  apply Rle_antisym.
+  - eapply maxf_le_bound; [exact Hx|]. intros; auto.
+  - rewrite <- Hy. apply (maxf_ge _ _ _ _ a Hx Ha eq_refl).
+Qed.
+
+Section FullObs.
+Variable p : pomdp R.
+Notation m := (base p).
+Variable tO : nat -> nat -> nat -> nat -> R.
+Variable rM : nat -> nat -> R.
+
+Definition fullobs : Prop :=
+  nO p = nS m /\
+  forall a ns o, (a < nA m)%nat -> (ns < nS m)%nat -> (o < nO p)%nat ->
+    Ob p a ns o = if Nat.eqb o ns then 1 else 0.
+
+Lemma fullobsb_fullobs : fullobsb p = true -> fullobs.
+Proof.
+  unfold fullobsb. rewrite andb_true_iff, forallbn_spec. intros [E H]. apply Nat.eqb_eq in E.
+  split; [exact E|]. intros a ns o Ha Hns Ho. specialize (H a Ha). rewrite forallbn_spec in H.
+  specialize (H ns Hns). rewrite forallbn_spec in H. specialize (H o Ho). apply neqb_Req' in H.
+  rewrite H. destruct (Nat.eqb o ns); reflexivity.
+Qed.
+
+Definition QW (k : nat) (u : nat -> R) : R :=
+  match k with O => 0 | S k' => odflt 0 (qmdp_value p (Qval m (Vk p k')) u) end.
+
+Hypothesis W : wfp p tO rM.
+Hypothesis F : fullobs.
+
+Lemma stepf_off u a o ns :
+  (a < nA m)%nat -> (o < nO p)%nat -> (ns < nS m)%nat -> ns <> o -> stepf p tO u a o ns = 0.
+Proof.
+  intros Ha Ho Hns Hne. unfold stepf. apply sumf_0. intros s Hs.
+  rewrite (wp_tO _ _ _ W) by auto. destruct F as [_ FO]. rewrite FO by auto.
+  assert (E : Nat.eqb o ns = false) by (apply Nat.eqb_neq; congruence). rewrite E. numR. lra.
+Qed.
+
+Lemma QW_step k u a o :
+  nonneg p u -> (a < nA m)%nat -> (o < nO p)%nat ->
+  QW k (step p tO u a o) = stepf p tO u a o o * Vk p k o.
+Proof.
+  intros Hu Ha Ho. destruct F as [E _]. assert (Ho' : (o < nS m)%nat) by lia.
+  destruct k; cbn [QW].
+  - cbn [Vk]. numR. lra.
+  - unfold qmdp_value, qmdp_action_value.
+    set (c := stepf p tO u a o o).
+    assert (Hc : 0 <= c).
+    { pose proof (step_nonneg p tO u a o (wfp_wf0 _ _ _ W) Hu Ha Ho o Ho') as H.
+      now rewrite step_eq in H. }
+    assert (Hs : forall a', sumf (nS m) (fun s => Qval m (Vk p k) s a' * step p tO u a o s)
+                            = Qval m (Vk p k) o a' * c).
+    { intros a'. rewrite (sumf_single _ _ o Ho').
+      - now rewrite step_eq.
+      - intros s Hs Hne. rewrite step_eq, stepf_off by auto. lra. }
+    pose proof (Vk_S p tO rM k o W Ho') as HV.
+    rewrite (maxf_char (nA m) _ (c * Vk p (S k) o)); [reflexivity| |].
+    + intros a' Ha'. numR. rewrite Hs. rewrite Rmult_comm. apply Rmult_le_compat_l; [auto|].
+      apply (maxf_ge _ _ _ _ a' HV Ha' eq_refl).
+    + destruct (maxf_attained _ _ _ _ HV) as (a' & Ha' & _ & Hq). exists a'. split; [auto|].
+      numR. rewrite Hs, Hq. lra.
+Qed.
+
+Theorem fullobs_Wopt_QW k : forall u, nonneg p u -> Wopt p tO rM k u = QW k u.
+Proof.
+  induction k; intros u Hu; [reflexivity|].
+  rewrite Wopt_S. cbn [QW]. unfold qmdp_value, qmdp_action_value. f_equal.
+  apply maxf_ext; [reflexivity|]. intros a Ha _.
+  rewrite <- (qstep_id p tO rM (Vk p k) u a W Ha). numR. f_equal. f_equal.
+  apply sumf_ext. intros o Ho. destruct F as [E _].
+  rewrite IHk by (apply step_nonneg; auto; apply (wfp_wf0 _ _ _ W)).
+  rewrite QW_step by auto. symmetry.
+  apply (sumf_single (nS m) (fun ns => stepf p tO u a o ns * Vk p k ns) o); [lia|].
+  intros ns Hns Hne. rewrite stepf_off by auto. lra.
+Qed.
+
+(* the (k+1)-horizon optimal value IS the k-step QMDP value, at every belief *)
+Corollary fullobs_qmdp_exact k u :
+  nonneg p u -> Wopt p tO rM (S k) u = odflt 0 (qmdp_value p (Qval m (Vk p k)) u).
+Proof. intros Hu. now rewrite fullobs_Wopt_QW. Qed.
+
+(* hence W* = QMDP value with the optimal table *)
+Theorem fullobs_Wstar_eq_qmdp M Vs u Ws :
+  0 <= M -> fixp p Vs -> nonneg p u -> is_Wstar p tO rM M u Ws ->
+  Ws = odflt 0 (qmdp_value p (Qval m Vs) u).
+Proof.
+  intros HM0 Hf Hu HW. apply Rle_antisym; [apply (Wstar_le_qmdp p tO rM M Vs u Ws); auto|].
+  pose proof (wf_gamma0 _ (wp_mdp _ _ _ W)) as G0. pose proof (wp_g1 _ _ _ W) as G1.
+  destruct (finite_sup (nS m) Vs) as (D & HD0 & HD & _).
+  pose proof (mass_nonneg p u Hu) as Hm.
+  assert (HMg : 0 <= M / (1 - gamma m)).
+  { apply Rmult_le_pos; [lra|]. left. apply Rinv_0_lt_compat. lra. }
+  apply (le_of_pow _ _ (gamma m) (mass p u * D + mass p u * (M / (1 - gamma m))) 1%nat); [lra| |].
+  { apply Rplus_le_le_0_compat; apply Rmult_le_pos; auto. }
+  intros n Hn. destruct n as [|n]; [lia|].
+  pose proof (HW (S n)) as H2. apply Rabs_le_inv' in H2. unfold tailR in H2.
+  rewrite fullobs_qmdp_exact in H2 by auto.
+  (* |qmdp_n - qmdp*| <= mass u * D * gamma^(n+1) *)
+  unfold qmdp_value, qmdp_action_value in *.
+  destruct (maxf_all_some (nA m) (fun a => sumf (nS m) (fun s => (Qval m (Vk p n) s a * u s)%num)) (wp_nA _ _ _ W)) as (x & Hx).
+  destruct (maxf_all_some (nA m) (fun a => sumf (nS m) (fun s => (Qval m Vs s a * u s)%num)) (wp_nA _ _ _ W)) as (y & Hy).
+  rewrite Hx in H2. rewrite Hy. cbn [odflt] in *.
+  assert (H : Rabs (x - y) <= (mass p u * D) * gamma m ^ (S n)).
+  { eapply maxf_nonexp; [exact Hx|exact Hy|]. intros a Ha _. cbv beta. numR.
+    rewrite <- sumf_minus. eapply Rle_trans; [apply sumf_abs|].
+    replace ((mass p u * D) * gamma m ^ S n) with (sumf (nS m) (fun s => u s * (gamma m * (gamma m ^ n * D)))).
+    2:{ rewrite sumf_scal_r. unfold mass. cbn [pow]. ring. }
+    apply sumf_le. intros s Hs.
+    replace (Qval m (Vk p n) s a * u s - Qval m Vs s a * u s)
+      with (u s * (Qval m (Vk p n) s a - Qval m Vs s a)) by ring.
+    rewrite Rabs_mult, (Rabs_right (u s)) by (apply Rle_ge, Hu; auto).
+    apply Rmult_le_compat_l; [apply Hu; auto|].
+    apply (Qval_diff m (Vk p n) Vs s a (gamma m ^ n * D) (wp_mdp _ _ _ W) Hs Ha).
+    - intros ns Hns. apply (Vk_conv p tO rM Vs D n W Hf HD0 HD ns Hns).
+    - apply Rmult_le_pos; [apply pow_le; auto|auto]. }
+  apply Rabs_le_inv' in H.
+  replace ((mass p u * D + mass p u * (M / (1 - gamma m))) * gamma m ^ S n)
+    with ((mass p u * D) * gamma m ^ S n + (mass p u * gamma m ^ S n) * (M / (1 - gamma m))) by ring.
+  lra.
+Qed.
+
+End FullObs.
